@@ -4,7 +4,7 @@ lookup_register / REGISTERS (Gen.Encoders).  Correspondence + falsifier: tools/f
 import frontend_engine as fe
 import harness
 
-GEN_UNITS = ['Encoders', 'Criteria', 'Pseudo', 'PassTable', 'ParseTable']   # the whole model of asm.assemble (C13_whole_*)
+GEN_UNITS = ['Encoders', 'Criteria', 'Pseudo', 'PassTable', 'ParseTable', 'Effects']   # the whole model of asm.assemble (C13_whole_*)
 EXES = []
 ASSUMPTIONS = ['source lines of printable ASCII and tabs (the character-list model); multi-token offsets in the imm(reg) '
                'form are not a documented freedom and are not generated']
